@@ -298,6 +298,10 @@ func Skeleton(r *simrt.RNG) string {
 				default:
 					sb.WriteString("{call " + callee + "}")
 				}
+			} else if r.Intn(6) == 0 {
+				// a dotted global from the same name pool, in plain and in quoted-expression positions
+				g := name() + "." + []string{"C", "x", "a", "VERSION"}[r.Intn(4)]
+				sb.WriteString([]string{"{" + g + "}", "{css " + g + ", x}", "{call .t}{param key=\"a\" value=\"" + g + "\"/}{/call}", "{call .t data=\"" + g + "\"/}", "{if " + g + " == 1}y{/if}", "{print " + g + "|escapeUri}"}[r.Intn(6)])
 			} else if r.Intn(4) == 0 {
 				// a whole message: its body has a sub-parser of its own (text, html tags, placeholders, plural)
 				sb.WriteString([]string{"{msg desc=\"d\"}", "{msg meaning=\"m\" desc=\"\"}", "{msg desc=\"\"}{plural $n}{case 1}"}[r.Intn(3)])
